@@ -134,7 +134,9 @@ def check_scte(acc, bad, sch, k, payload, where):
 
 
 def execute(item):
-    stream, mode, vec, phase = item
+    stream, mode, vec, phase = item[:4]
+    template = item[4] if len(item) > 4 else 'hand_made'
+    base = item[5] if len(item) > 5 else None
     w = W.World.shared()
     w.begin_item()
     acc = core.Acc()
@@ -147,8 +149,10 @@ def execute(item):
         now = AST + datetime.timedelta(seconds=600 + phase)
     else:
         now = NOW
-    url = crawl.manifest_url(mode, stream, 'hand_made', q)
-    rec = {'stream': stream, 'mode': mode, 'vec': vec, 'phase': phase}
+    if base is not None:
+        q['base'] = base
+    url = crawl.manifest_url(mode, stream, template, q)
+    rec = {'stream': stream, 'mode': mode, 'vec': vec, 'phase': phase, 'template': template, 'base': base}
     tag = f"{'+'.join(sch['types'])}|v{sch['version']}|{'inband' if sch['inband'] else 'outband'}"
 
     def bad(clause, text):
@@ -177,7 +181,7 @@ def execute(item):
                 bad('eventstream-missing', f'{len(streams)} EventStream elements for {t}')
                 continue
             es = streams[0]
-            acc.nontriv((stream, mode, tuple(sorted(vec.items())), 'manifest', t))
+            acc.nontriv((stream, template, base, mode, tuple(sorted(vec.items())), 'manifest', t))
             if es.get('timescale') != str(sch['timescale']):
                 bad('eventstream-timescale', f'{t}: @timescale={es.get("timescale")}')
             evs = es.findall(mpd.Q + 'Event')
@@ -217,7 +221,7 @@ def execute(item):
         sr = w.get(mpd.split_url(seg['url']))
         acc.count('evaluations')
         acc.count('transitions')
-        acc.state((stream, mode, phase, tuple(sorted(vec.items())), seg['n']))
+        acc.state((stream, template, base, mode, phase, tuple(sorted(vec.items())), seg['n']))
         if sr.status != 200:
             acc.outcome(('segment', sr.status))
             acc.count(f'segment_status_{sr.status}')
@@ -240,7 +244,7 @@ def execute(item):
             boxes = [e for e in frag.emsgs if e['scheme_id_uri'] == SCHEMES[t]]
             want = expected_in(sch, lo, hi) if sch['inband'] else []
             if want:
-                acc.nontriv((stream, mode, phase, tuple(sorted(vec.items())), seg['n'], t))
+                acc.nontriv((stream, template, base, mode, phase, tuple(sorted(vec.items())), seg['n'], t))
             got = [e['id'] for e in boxes]
             if got != want:
                 extra = [k for k in got if k not in want]
@@ -464,7 +468,18 @@ def plan(tier):
             for ts in ('100', '90000', '1'):
                 for start in ('zero', 'boundary+1'):
                     v = {'type': t, 'inband': '0', 'count': count, 'timescale': ts, 'start': start}
-                    items.append(('run', ('bbb', 'vod', {k: x for k, x in v.items() if DEFAULTS.get(k) != x}, 0)))
+                    vv = {k: x for k, x in v.items() if DEFAULTS.get(k) != x}
+                    items.append(('run', ('bbb', 'vod', vv, 0)))
+                    # the other template that carries events, and both with absolute URLs instead of BaseURL elements
+                    if ts == '100' or tier != 'quick':
+                        items.append(('run', ('bbb', 'vod', vv, 0, 'manifest_n', None)))
+                        items.append(('run', ('bbb', 'vod', vv, 0, 'manifest_n', '0')))
+                        items.append(('run', ('bbb', 'vod', vv, 0, 'hand_made', '0')))
+    for v in vecs:
+        if len(v) <= 1 and v.get('inband', '1') == '1':
+            for tmpl, base in (('manifest_n', None), ('manifest_n', '0'), ('hand_made', '0')):
+                items.append(('run', ('bbb', 'vod', v, 0, tmpl, base)))
+                items.append(('run', ('bbb', 'live', v, 17.3, tmpl, base)))
     items.append(('codec-special', None))
     step = 2000
     stride = 1 if tier != 'quick' else 9
@@ -496,5 +511,6 @@ def replay(record):
             if a.viol:
                 break
         return [(s, v[0]['what']) for s, v in acc.viol.items()]
-    acc = execute((record['stream'], record['mode'], record['vec'], record['phase']))
+    acc = execute((record['stream'], record['mode'], record['vec'], record['phase'], record.get('template', 'hand_made'),
+                   record.get('base')))
     return [(s, v[0]['what']) for s, v in acc.viol.items()]
